@@ -504,7 +504,7 @@ class Run:
         if st.value is None:
             return
         if isinstance(st.target, ast.Name):
-            ty = self.x.type_from_annotation(st.annotation, fr, soft=True)
+            ty = self.x.local_type(fr.finfo, st.target.id) or self.x.type_from_annotation(st.annotation, fr, soft=True)   # the sidecar's declaration wins
             if ty is not None and st.target.id not in fr.local_types:
                 fr.local_types[st.target.id] = ty
         hint = fr.local_types.get(getattr(st.target, "id", None))
